@@ -333,8 +333,16 @@ func rollbackKey(db *NoKV.DB, reader *Reader, key []byte, startTs uint64) *pb.Ke
 		}
 		return nil
 	}
-	if err := db.DeleteVersionedEntry(kv.CFLock, key, lockColumnTs); err != nil && err != utils.ErrKeyNotFound {
+	// Only this transaction's own lock is removed: the key may be locked by another
+	// transaction (e.g. the one whose lock made this transaction's prewrite fail).
+	lock, err := reader.GetLock(key)
+	if err != nil {
 		return keyErrorRetryable(err)
+	}
+	if lock != nil && lock.Ts == startTs {
+		if err := db.DeleteVersionedEntry(kv.CFLock, key, lockColumnTs); err != nil && err != utils.ErrKeyNotFound {
+			return keyErrorRetryable(err)
+		}
 	}
 	if err := db.DeleteVersionedEntry(kv.CFDefault, key, startTs); err != nil && err != utils.ErrKeyNotFound {
 		return keyErrorRetryable(err)
